@@ -24,7 +24,8 @@ Record case_t := Case {
   c_wrote : bool;                (* ncf2bpch ran *)
   c_written : list word;         (* what it wrote *)
   c_b2_ok : bool;                (* mode 2: bpch2 opened and every variable could be read *)
-  c_view2 : view2                (* mode 2: what bpch2 presented *)
+  c_view2 : view2;               (* mode 2: what bpch2 presented; its units are TEXT (UHdr): bpch2 presents every unit as str *)
+  c_upool : list (list word)     (* mode 2: the text (40 chars, blank padded) of the table units UTab 0, 1, ... *)
 }.
 
 Definition tunit_eqb (a b : tunit) : bool :=
@@ -55,12 +56,21 @@ Definition res_match (scaled : bool) (r : result view) (ok : bool) (o : view) : 
   match r with Ok v => ok && view_match scaled v o | Err => negb ok end.
 
 (* mode 2 (second reader): the reference-encoded file through bpch1 AND bpch2, both without scaling *)
-Definition view2_eqb (a b : view2) : bool :=
-  zlist_eqb (s_ftype a) (s_ftype b) && zlist_eqb (s_title a) (s_title b) && list_eqb var_eqb (s_vars a) (s_vars b)
+(* units are compared by their TEXT: bpch1 presents a table unit as str and a header unit as bytes, bpch2 presents both
+   as str - a difference of type only; a difference of the text would be a disagreement *)
+Definition unit_text (pool : list (list word)) (u : tunit) : list word :=
+  match u with UTab i => nth (Z.to_nat i) pool [] | UHdr w => w end.
+Definition var_eqb_txt (pool : list (list word)) (a b : var) : bool :=
+  zlist_eqb (v_cat a) (v_cat b) && tname_eqb (v_name a) (v_name b) && (v_tid a =? v_tid b)
+  && zlist_eqb (v_unit0 a) (v_unit0 b) && zlist_eqb (v_resv a) (v_resv b)
+  && (v_nx a =? v_nx b) && (v_ny a =? v_ny b) && (v_nz a =? v_nz b) && zlist_eqb (v_start a) (v_start b)
+  && Qeq_bool (v_scale a) (v_scale b) && zlist_eqb (unit_text pool (v_unit a)) (unit_text pool (v_unit b)).
+Definition view2_eqb (pool : list (list word)) (a b : view2) : bool :=
+  zlist_eqb (s_ftype a) (s_ftype b) && zlist_eqb (s_title a) (s_title b) && list_eqb (var_eqb_txt pool) (s_vars a) (s_vars b)
   && zll_eqb (s_taus a) (s_taus b) && zlll_eqb (s_data a) (s_data b).
-Definition agree_b (v1 : view) (v2 : view2) : bool :=
+Definition agree_b (pool : list (list word)) (v1 : view) (v2 : view2) : bool :=
   zlist_eqb (s_ftype v2) (r_ftype v1) && zlist_eqb (s_title v2) (r_title v1)
-  && list_eqb var_eqb (s_vars v2) (map no_resv (r_vars v1))
+  && list_eqb (var_eqb_txt pool) (s_vars v2) (map no_resv (r_vars v1))
   && zll_eqb (s_taus v2) (r_taus v1)
   && zlll_eqb (s_data v2) (map (data_of_var v1) (r_vars v1)).
 
@@ -71,7 +81,7 @@ Definition checkF (c : case_t) : bool :=
   && if c_mode c =? 2 then
        res_match false (impl_open (c_T c) (c_D c) (c_ref c) (4 * lenZ (c_ref c))) (c_open_ok c) (c_view c)
        && match impl_bpch2 (c_T c) (c_D c) (c_ref c) (4 * lenZ (c_ref c)) with
-          | Ok v2 => c_b2_ok c && view2_eqb v2 (c_view2 c)
+          | Ok v2 => c_b2_ok c && view2_eqb (c_upool c) v2 (c_view2 c)
           | Err => negb (c_b2_ok c)
           end
      else if c_mode c =? 0 then
@@ -106,15 +116,13 @@ Definition prefix_ok (c : case_t) : bool :=
              (seq 1 (length (tb0 f) - 1)).
 
 Definition checkS (c : case_t) : bool :=
-  if c_mode c =? 2 then c_open_ok c && c_b2_ok c && agree_b (c_view c) (c_view2 c) else
+  if c_mode c =? 2 then c_open_ok c && c_b2_ok c && agree_b (c_upool c) (c_view c) (c_view2 c) else
   if c_mal c then (if is_cut c then prefix_ok c else true) else
   c_open_ok c && view_match (c_scaled c) (view_of (c_T c) (c_D c) (c_f c)) (c_view c)
   && (if (c_mode c =? 0) && negb (c_scaled c) then c_wrote c && zlist_eqb (c_written c) (given c) else true)
   && (if c_mode c =? 0 then true else c_wrote c).
 
-(* region 1 = the second reader on tables that lack the category or the tracer number (finding
-   C18-bpch2-missing-table-entry); everything else is inside the proved domain *)
-Definition region (c : case_t) : nat :=
-  if (c_mode c =? 2) && negb (tables_complete (c_T c) (c_D c) (c_f c)) then 1%nat else 0%nat.
+(* every generated case is inside the proved domain (no known finding left for C18) *)
+Definition region (c : case_t) : nat := 0%nat.
 
 Definition check (c : case_t) : verdict := (checkF c, checkS c, region c).
